@@ -322,6 +322,13 @@ impl MockWriter {
                 Poll::Pending
             },
             WStep::Accept(n) => {
+                if w.log.len() > LOG_CAP {
+                    // No generated case asks the server for more than a few MiB of output: a log
+                    // beyond the cap means the code under test writes without bound. Reported as
+                    // a panic of the case (the lock is released first so that unwinding is clean).
+                    drop(w);
+                    panic!("mock transport: the server wrote more than {} MiB (unbounded output)", LOG_CAP >> 20);
+                }
                 let n = if n == u16::MAX { usize::MAX } else { n.max(1) as usize };
                 let mut n = n.min(total);
                 if n < total {
@@ -342,6 +349,9 @@ impl MockWriter {
         }
     }
 }
+
+/// Upper bound of the mock transport's byte log (see `do_write`).
+pub const LOG_CAP: usize = 48 << 20;
 
 impl AsyncWrite for MockWriter {
     fn poll_write(self: Pin<&mut Self>, cx: &mut Context<'_>, buf: &[u8]) -> Poll<io::Result<usize>> {
